@@ -432,6 +432,8 @@ Definition mstep (s : mstate) (kind : string) (a : list N) (data : list N) (rl :
     end
   else if String.eqb kind "panics" then
     match res with VN 0 => (0, s) | _ => (5, s) end              (* C05: nothing on the backend side panicked *)
+  else if String.eqb kind "teardown" then
+    match res with VL [VS "ok"; VN 0] => (0, s) | _ => (9, s) end    (* C09: every descriptor the daemon received is closed once it is gone *)
   else if String.eqb kind "set_features" then
     if ok then
       if negb (N.land q (N.lxor (ms_offered s) (2 ^ 64 - 1)) =? 0) then (14, s)      (* accepted only for a subset of the offer *)
